@@ -27,7 +27,7 @@ ASSUMPTIONS = ['tolerance 1e-7 x natural scale of the output (price scale, or 10
 MIN_OBS = {'triples': 3000, 'reference_comparisons': 3000, 'recurrence_checks': 600, 'decayed_value_checks': 300,
            'ma_dispatch_checks': 300, 'invariant_checks': 3000, 'homogeneity_checks': 600,
            'stage_parameter_checks': 300, 'stoch_with_different_stage_types': 50,
-           'series_input_checks': 300}
+           'series_input_checks': 300, 'macd_fast_period_above_slow': 40}
 SHARD_TIMEOUT = 2400
 JOB_TIMEOUT = 900
 
@@ -352,10 +352,13 @@ def run_job(job):
                 fp = rng.randint(2, 20)
                 sp = fp + rng.randint(1, 30)
                 gp = rng.randint(2, 15)
+                if rng.random() < 0.25:
+                    fp, sp = sp, fp          # the definition has no ordering requirement: EMA(fast) - EMA(slow) whatever the periods
+                    J.c('macd_fast_period_above_slow')
                 mc2 = ta.macd(Xl, fp, sp, gp, source_type=st, sequential=True)
                 fr = r_ema_from(xl, 2 / (fp + 1), fp - 1, sum(xl[:fp]) / fp)
                 sr = r_ema_from(xl, 2 / (sp + 1), sp - 1, sum(xl[:sp]) / sp)
-                lo_m = 3 * decayed(2 / (sp + 1), sp)
+                lo_m = 3 * decayed(2 / (max(sp, fp) + 1), max(sp, fp))
                 if lo_m < n2 - 5:
                     J.same('macd:line:periods', mc2.macd, fr - sr, xls, lo=lo_m, counter='stage_parameter_checks', tol=1e-6)
                 J.same('macd:hist=macd-signal:periods', mc2.hist, np.asarray(mc2.macd) - np.asarray(mc2.signal), xls, tol=1e-9,
